@@ -125,7 +125,7 @@ def bulk_supercell(name, rng):
     return conv.repeat(reps)
 
 
-def slab(name, facet, layers, pbc_z, rng, min_lateral=2 * MAX_CELL + 0.5):
+def slab(name, facet, layers, pbc_z, rng, min_lateral=2 * MAX_CELL + 0.5, extra=(0, 0)):
     from ase.build import surface
 
     conv, prim = unit(name)
@@ -138,7 +138,7 @@ def slab(name, facet, layers, pbc_z, rng, min_lateral=2 * MAX_CELL + 0.5):
     C = s.cell[:]
     h_a = np.linalg.norm(np.cross(C[0], C[1])) / np.linalg.norm(C[1])
     h_b = np.linalg.norm(np.cross(C[0], C[1])) / np.linalg.norm(C[0])
-    s = s.repeat((int(np.ceil(min_lateral / h_a)), int(np.ceil(min_lateral / h_b)), 1))
+    s = s.repeat((int(np.ceil(min_lateral / h_a)) + extra[0], int(np.ceil(min_lateral / h_b)) + extra[1], 1))
     s.set_pbc([True, True, bool(pbc_z)])
     if pbc_z and s.cell[2, 2] <= 2 * MAX_CELL + 0.5:
         c = s.cell[:].copy()
